@@ -345,3 +345,82 @@ Proof.
     apply get_body; [exact (recv_ok_of _ _ _ _ _ _ Hok R G)|exact F].
   - cbn [recv_obj]. apply get_body; [exact (recv_ok_of sch h mid None _ md Hok eq_refl G)|exact F].
 Qed.
+
+(* ================================================================== Mutable *)
+Lemma rp_assoc_canon_mut sch mid f :
+  rp_assoc (rm_cases (canon_mut sch mid)) f = option_map (canon_mut_body f) (nth_error (fields_of sch mid) f).
+Proof.
+  unfold canon_mut, rp_fields. cbn [rm_cases]. rewrite map_app, rp_assoc_app, !rp_assoc_filter.
+  cbn [Nat.ltb Nat.leb]. rewrite Nat.sub_0_r. destruct (nth_error (fields_of sch mid) f) as [fd|]; [|reflexivity].
+  cbn [snd option_map]. destruct (rp_mutable fd); reflexivity.
+Qed.
+
+Lemma eval_mut_noobj sch fs h x b : (x = XNil \/ x = XBad) -> eval_mut sch fs h x b = Some (h, PPanic).
+Proof. intros [-> | ->]; destruct b; reflexivity. Qed.
+
+Lemma mut_body sch md h id ob f fd : recv_ok md ob -> nth_error (m_fields md) f = Some fd ->
+  eval_mut sch (m_fields md) h (XObj (Some id) ob) (canon_mut_body f fd) =
+  Some match f_shape fd, f_ty fd with
+        | Singular, TMsg m =>
+          match nth_error (o_cells ob) f with
+          | Some (CMsg (Some q)) => (h, PMsg m (Some q))
+          | _ => let (h1, q) := halloc h (HObj (new_obj sch m)) in
+                 (hset h1 id (HObj (set_cell ob f (CMsg (Some q)))), PMsg m (Some q))
+          end
+        | Rep _, t =>
+          match nth_error (o_cells ob) f with
+          | Some (CList None) => (hset h id (HObj (set_cell ob f (CList (Some [])))), PList t (RField id f))
+          | _ => (h, PList t (RField id f))
+          end
+        | MapOf kk, t =>
+          match nth_error (o_cells ob) f with
+          | Some (CMap None) => (hset h id (HObj (set_cell ob f (CMap (Some [])))), PMap kk t (RField id f))
+          | _ => (h, PMap kk t (RField id f))
+          end
+        | Member j, TMsg m =>
+          match nth j (o_oneofs ob) None with
+          | Some (f', EPtr q) =>
+            if Nat.eqb f' f then
+              match q with
+              | Some _ => (h, PMsg m q)
+              | None =>
+                let (h1, q') := halloc h (HObj (new_obj sch m)) in
+                (hset h1 id (HObj (set_oneof ob j (Some (f, EPtr (Some q'))))), PMsg m (Some q'))
+              end
+            else let (h1, q') := halloc h (HObj (new_obj sch m)) in
+                 (hset h1 id (HObj (set_oneof ob j (Some (f, EPtr (Some q'))))), PMsg m (Some q'))
+          | _ => let (h1, q') := halloc h (HObj (new_obj sch m)) in
+                 (hset h1 id (HObj (set_oneof ob j (Some (f, EPtr (Some q'))))), PMsg m (Some q'))
+          end
+        | _, _ => (h, PPanic)
+        end.
+Proof.
+  intros R F. destruct (recv_cell _ _ _ _ R F) as [c [C Fit]].
+  unfold canon_mut_body, cell_fitsb in *.
+  destruct (f_shape fd) as [|pk|o|kk] eqn:S; destruct (f_ty fd) as [k|m] eqn:T; destruct c; try discriminate;
+    cbn [eval_mut]; rewrite ?F, ?C, ?S, ?T, ?Nat.eqb_refl; unfold halloc; cbn [put_obj view_ref].
+  - reflexivity.
+  - destruct p; reflexivity.
+  - destruct l; reflexivity.
+  - destruct l; reflexivity.
+  - reflexivity.
+  - rewrite (member_in_self _ _ _ _ F S), T, Nat.eqb_refl. unfold slot_at.
+    destruct (nth o (o_oneofs ob) None) as [[f' [v|[q|]]]|]; [destruct (Nat.eqb f' f)..|]; reflexivity.
+  - destruct m; reflexivity.
+  - destruct m0; reflexivity.
+Qed.
+
+Lemma mutable_prog_correct : mutable_prog_stmt.
+Proof.
+  intros sch h r f Hwf Hok. destruct r as [|mid p| | | | | | | | | |]; try exact I.
+  unfold run_mut, run_meth. rewrite rp_assoc_canon_mut. cbn [canon_mut rm_guard].
+  destruct p as [id|]; cbn [step xst_of].
+  2:{ destruct (nth_error (fields_of sch mid) f); cbn [option_map]; [apply eval_mut_noobj; auto|reflexivity]. }
+  rewrite field_of_nth.
+  destruct (get_msg sch mid) as [md|] eqn:G.
+  2:{ rewrite (fields_of_none _ _ G). destruct f; reflexivity. }
+  rewrite (fields_of_md _ _ _ G).
+  destruct (nth_error (m_fields md) f) as [fd|] eqn:F; cbn [option_map]; [|reflexivity].
+  destruct (recv_obj sch h mid (Some id)) as [ob|] eqn:R; [|apply eval_mut_noobj; auto].
+  apply mut_body; [exact (recv_ok_of _ _ _ _ _ _ Hok R G)|exact F].
+Qed.
